@@ -247,6 +247,9 @@ fn many(a: int, b: str, c: int, d: str, e: bool, f: int) {
 func runC17(t *testing.T, spec RunSpec) *Verdict {
 	const P = "C17"
 	v := &Verdict{}
+	if spec.P("free", 0) == 1 {
+		return v // free-mode specs run in the -race binary (execFree), never inline
+	}
 	m := c17Workload(spec)
 	prog, err := MustCompile(m.prog)
 	if err != nil {
@@ -406,6 +409,14 @@ func planC17(t *testing.T, tier string, seed uint64) ([]RunSpec, error) {
 				}
 			}
 		}
+	}
+	// clause (e): free-mode runs under the race detector
+	nfree := 48
+	if !quick(tier) {
+		nfree = 1500
+	}
+	for k := 0; k < nfree; k++ {
+		plan = append(plan, RunSpec{Property: "C17", Workload: "c17/free-race", Params: map[string]int{"free": 1, "n": 1 + k%8, "iters": []int{5, 30, 120}[k%3], "gomaxprocs": []int{2, 4, 16}[(k/3)%3]}, Seed: runSeed(seed, 900000+k)})
 	}
 	return plan, nil
 }
